@@ -197,6 +197,24 @@ func fragNeg(g *Gen, n int, o *Out) {
 				a.Path = [][]string{{"Paths"}, {"P2"}, {"S"}}[g.r.Intn(3)]
 				b.Path = a.Path
 			}
+			if g.r.Intn(5) == 0 {
+				// a BARE literal that begins with a keyword, in both operand orders
+				w := []string{"notable", "nothing", "android", "inside", "orx", "anyone", "allx", "isx", "matchesx", "island", "notify", "containsx", "inx"}[g.r.Intn(13)]
+				a.Raw, b.Raw, a.LitStyle, b.LitStyle, a.ForceDouble, b.ForceDouble = w, w, 1, 1, false, false
+				datum = map[string]interface{}{"S": []string{"x", w}, "T": []interface{}{w[3:], "y"}, "U": w + "!", w[3:]: []string{"x"}, w[2:]: "q"}
+				a.Path = [][]string{{"S"}, {"T"}, {"U"}}[g.r.Intn(3)]
+				b.Path = a.Path
+				for _, op := range []string{"in", "notin"} {
+					a.Op, b.Op = op, op
+					a.Contains, b.Contains = true, false
+					ra, _, oka := evalG(g, o, opts, a, datum)
+					rb, _, okb := evalG(g, o, opts, b, datum)
+					if oka && okb && ra != rb {
+						o.finding(Finding{Property: "C04", Kind: "failing-input", What: fmt.Sprintf("contains and in differ on the bare literal %s (%s): %s vs %s", w, op, ra, rb), Request: lastReq(o)})
+					}
+				}
+				a.Op, b.Op = "in", "in"
+			}
 			a.Contains, b.Contains = true, false
 			ra, _, oka := evalG(g, o, opts, a, datum)
 			rb, _, okb := evalG(g, o, opts, b, datum)
@@ -264,13 +282,26 @@ func fragAbsent(g *Gen, n int, o *Out) {
 				o.finding(Finding{Property: "C05", Kind: "failing-input", What: fmt.Sprintf("absent key of a hook-unwrapped map: %s gives %s, documented %s", op, r, absentTable[op]), Request: lastReq(o), Detail: text})
 			}
 		}
-		// `all` / `any` over the absent key
+		// `all` / `any` over the absent key: every binding form (also the same placeholder twice, `_`,
+		// names that collide with the root key) and bodies that would fail if they were ever evaluated
 		for _, cop := range []string{"all", "any"} {
-			c := GColl{Op: cop, Path: full, Mode: "default", Def: "x", Inner: GMatch{Path: []string{"x"}, Op: "eq", Raw: "1"}}
-			r, text, ok := evalG(g, o, nil, c, root)
-			want := map[string]string{"all": "T", "any": "F"}[cop]
-			if ok && r != want {
-				o.finding(Finding{Property: "C05", Kind: "failing-input", What: cop + " over an absent map key gives " + r, Request: lastReq(o), Detail: text})
+			bodies := []GExpr{GMatch{Path: []string{"x"}, Op: "eq", Raw: "1"}, GMatch{Path: []string{"zz", "q"}, Op: "matches", Raw: "("},
+				GColl{Op: "any", Path: []string{"x"}, Mode: "default", Def: "y", Inner: GMatch{Path: []string{"y"}, Op: "eq", Raw: "1"}}}
+			forms := []GColl{
+				{Mode: "default", Def: "x"}, {Mode: "indexvalue", Idx: "k", Val: "x"}, {Mode: "indexvalue", Idx: "k", Val: "k"}, {Mode: "indexvalue", Idx: "x", Val: "x"},
+				{Mode: "index", Idx: "k"}, {Mode: "value", Val: "x"}, {Mode: "default", Def: full[0]}, {Mode: "indexvalue", Idx: full[0], Val: "x"},
+			}
+			for fi, f := range forms {
+				if fi > 0 && g.r.Intn(2) == 0 {
+					continue
+				}
+				c := f
+				c.Op, c.Path, c.Inner = cop, full, bodies[g.r.Intn(len(bodies))]
+				r, text, ok := evalG(g, o, nil, c, root)
+				want := map[string]string{"all": "T", "any": "F"}[cop]
+				if ok && r != want {
+					o.finding(Finding{Property: "C05", Kind: "failing-input", What: cop + " over an absent map key gives " + r, Request: lastReq(o), Detail: text})
+				}
 			}
 		}
 		// error cases: absent top-level key, absent intermediate, index out of range, step into a scalar
